@@ -18,6 +18,8 @@ pub struct Interval {
     pub lo: BigInt,
     pub hi: BigInt,
     pub exp: i128,
+    /// working digits this enclosure is kept at
+    pub work: u64,
 }
 
 fn floor_div(a: &BigInt, b: &BigInt) -> BigInt {
@@ -36,8 +38,8 @@ fn ceil_div(a: &BigInt, b: &BigInt) -> BigInt {
 impl Interval {
     fn renormalize(mut self) -> Interval {
         let d = ndigits(&self.hi);
-        if d > WORK_DIGITS + 10 {
-            let cut = d - WORK_DIGITS;
+        if d > self.work + 10 {
+            let cut = d - self.work;
             let p = pow10i(cut);
             self.lo = floor_div(&self.lo, &p);
             self.hi = ceil_div(&self.hi, &p);
@@ -47,18 +49,18 @@ impl Interval {
     }
 
     fn square(&self) -> Interval {
-        Interval { lo: &self.lo * &self.lo, hi: &self.hi * &self.hi, exp: self.exp * 2 }.renormalize()
+        Interval { lo: &self.lo * &self.lo, hi: &self.hi * &self.hi, exp: self.exp * 2, work: self.work }.renormalize()
     }
 
     fn mul(&self, o: &Interval) -> Interval {
-        Interval { lo: &self.lo * &o.lo, hi: &self.hi * &o.hi, exp: self.exp + o.exp }.renormalize()
+        Interval { lo: &self.lo * &o.lo, hi: &self.hi * &o.hi, exp: self.exp + o.exp, work: self.work.min(o.work) }.renormalize()
     }
 
     fn recip(&self) -> Interval {
         // 1 / [lo, hi] 10^exp  =  [10^K / hi, 10^K / lo] * 10^(-K - exp)
-        let k = 2 * WORK_DIGITS + 20;
+        let k = 2 * self.work + 20;
         let one = pow10i(k);
-        Interval { lo: floor_div(&one, &self.hi), hi: ceil_div(&one, &self.lo), exp: -(k as i128) - self.exp }.renormalize()
+        Interval { lo: floor_div(&one, &self.hi), hi: ceil_div(&one, &self.lo), exp: -(k as i128) - self.exp, work: self.work }.renormalize()
     }
 
     pub fn lo_dec(&self) -> Dec {
@@ -108,14 +110,18 @@ fn exp_small_nonneg(y_lo: &BigInt, y_hi: &BigInt, f: u64) -> Interval {
     // remainder after the last added term T_n (upper bound term_hi): sum_{j>n} y^j/j! <= T_n * (y/(n+1)) / (1 - y/(n+2)) <= T_n
     // since y < 1/128; rounding of that bound is covered by adding 2 more units
     sum_hi += &term_hi + 2;
-    Interval { lo: sum_lo, hi: sum_hi, exp: -(f as i128) }
+    Interval { lo: sum_lo, hi: sum_hi, exp: -(f as i128), work: f }
 }
 
 /// Rigorous enclosure of e^x.  |x| must be below 10^6 (far beyond the checked domain).
 pub fn exp_interval(x: &Dec) -> Interval {
-    let f = WORK_DIGITS;
+    exp_interval_at(x, WORK_DIGITS)
+}
+
+/// the same with `f` working digits (the enclosure is about 10^-(f-10) wide, relatively)
+pub fn exp_interval_at(x: &Dec, f: u64) -> Interval {
     if x.is_zero() {
-        return Interval { lo: BigInt::one(), hi: BigInt::one(), exp: 0 };
+        return Interval { lo: BigInt::one(), hi: BigInt::one(), exp: 0, work: f };
     }
     let ax = x.abs();
     assert!(ax.adjusted() <= 6, "oracle: |x| too large for exp_interval");
@@ -182,14 +188,16 @@ pub enum ExpVerdict {
     Undecided,
 }
 
-/// Decide |r - e^x| <= `units` units of the `digits`-th significant digit of e^x
-/// (unit taken in the larger decade if r and e^x straddle a power of ten).
+/// Decide |r - e^x| <= `units` units of the `digits`-th significant digit of the result r
+/// ("the last of its significant digits": the unit is the result's own; when r is not
+/// positive the decade of e^x is used, and the case is Outside anyway).
+/// The enclosure is computed with digits + 70 working digits, so Undecided needs an error
+/// within about 10^-60 units of the bound.
 pub fn judge(x: &Dec, r: &Dec, digits: u64, units: u64) -> (ExpVerdict, Interval) {
-    let iv = exp_interval(x);
+    let iv = exp_interval_at(x, (digits + 70).max(WORK_DIGITS));
     let (lo, hi) = (iv.lo_dec(), iv.hi_dec());
     let adj_true = hi.adjusted();
-    let adj_r = if r.is_zero() || r.signum() < 0 { adj_true } else { r.adjusted() };
-    let adj = adj_true.max(adj_r);
+    let adj = if r.is_zero() || r.signum() < 0 { adj_true } else { r.adjusted() };
     let tol = Dec::new(BigInt::from(units), -(adj - digits as i128)); // units * 10^(adj - digits)
     // certainly within: hi - tol <= r <= lo + tol
     let within = r.cmp_val(&lo.add(&tol)) != Ordering::Greater && r.cmp_val(&hi.sub(&tol)) != Ordering::Less;
